@@ -14,6 +14,12 @@ the caller wrote, in exact rational arithmetic):
   near    target = dt*q*(1+eps), q in {1, 2, 3, 1/2, 1/3}, eps in {+-1e-6, +-1e-7} ("nearly equal but different")
   tscale  (dt, target) menus multiplied by 1e-6 and by 1e+3 (the step rule is scale-free in time)
   int     dt and target given as python integers (seconds)
+  long    LONG records (size-dependent branches are a general class): every length of a ladder 2**p - 1, 2**p, 2**p + 1
+          up to 2**16, the lengths 2**p + 2, + 3, + 4 above the two top powers, 10**p - 1, 10**p, 10**p + 1, and 5-smooth
+          / not 5-smooth lengths above 2**15, x a menu of (dt, target) pairs (refinement by 2, 3, 4, decimation by 2, 3, 4,
+          non-commensurate, same step, unchanged step); the smooth record through the three entry points and a menu
+          of on-grid harmonics (lowest, middle, the two highest below the new Nyquist frequency, cos and sin, and their
+          weighted sum) through the Fourier entry point, expectation = the harmonic evaluated at the new instants
 
 Oracles (all written from the property text, none from the code):
   step rule       new_dt <= target (1e-12 rel) and dt/new_dt or new_dt/dt is an integer (1e-9);
@@ -36,7 +42,7 @@ import numpy as np
 
 from ..target import eqsig, time_step
 from ..result import Res
-from ..compare import frac
+from ..compare import frac, close, to_array
 
 SIG = (-1, 0, 2)
 DTS = (0.005, 0.01, 0.02, 0.025, 0.03, 0.04, 0.05, 0.07, 0.1, 0.2, 0.25, 0.3, 0.5, 1.0)
@@ -49,6 +55,34 @@ TS_LARGE = ((5.0, 10.0, 30.0, 100.0), (5.0, 10.0, 20.0, 30.0, 100.0, 12.3))     
 INT_STEPS = ((1, 2, 3), (1, 2, 3, 4, 6))            # python ints for dt and target
 VALUE_SCALES = (1e-9, 1e6)
 OBJ_CLASSES = ('AccSignal', 'Signal')
+# long records: (dt, target) pairs - refinement x2, x3, x4 (quotient just above 3), decimation x2, x3, x2 (non-commensurate), x4,
+# same step, unchanged step (target below 2 dt)
+LONG_STEPS = ((0.01, 0.005), (0.03, 0.01), (0.01, 0.0033333), (0.005, 0.01), (0.01, 0.03), (0.005, 0.0123), (0.005, 0.02),
+              (0.01, 0.01), (0.01, 0.0123))
+LONG_TOP = {'quick': 16, 'thorough': 17}
+
+
+def long_lens(tier):
+    top = LONG_TOP[tier]
+    out = set()
+    for p in range(6, top + 1):
+        out.update((2 ** p - 1, 2 ** p, 2 ** p + 1))
+    for p in (15, 16, 17):
+        if p <= top:
+            out.update((2 ** p + 2, 2 ** p + 3, 2 ** p + 4))
+    for p in (3, 4) + (() if tier == 'quick' else (5,)):
+        out.update((10 ** p - 1, 10 ** p, 10 ** p + 1))
+    out.update((36000, 36020, 40000, 40004))           # 5-smooth / not 5-smooth above 2**15
+    if tier != 'quick':
+        out.update((50012, 60000, 66008, 98304, 98306))
+    return sorted(out)
+
+
+def is_5_smooth(n):
+    for p in (2, 3, 5):
+        while n % p == 0:
+            n //= p
+    return n == 1
 MENU = {
     'quick': {'dts': DTS, 'targets': DTS + EXTRA_TARGETS, 'lens': (2, 3, 4, 5, 9, 12, 31), 'word_lens': (2, 3, 4, 5),
               'pair_cap': 6, 'near_dts': (0.005, 0.01, 0.07, 0.3, 1.0), 'side_lens': (4, 12)},
@@ -105,6 +139,17 @@ def build(tier, seed):
             for dt in dts:
                 for tg in tgs:
                     add(dt, tg, n, fam)
+    # long records: the expensive cases, spread over the list (one per pool chunk, the longest first)
+    light = cases
+    cases = []
+    for n in reversed(long_lens(tier)):
+        for dt, tg in LONG_STEPS:
+            add(dt, tg, n, 'long')
+    heavy = cases
+    cases = light
+    stride = max(1, len(cases) // max(1, len(heavy)))
+    for i, c in enumerate(heavy):
+        cases.insert(min(len(cases), i * (stride + 1)), c)
     return {
         'cases': cases,
         'rule': 'grid points (dt, target, n) with n*dt >= 2*max(dt,target) (exact, decimal reading): menu dt x menu target x n in %s; '
@@ -117,18 +162,23 @@ def build(tier, seed):
                 'reset to a record with the same length and end values, back again), A-B-A on the same argument arrays, returned '
                 'arrays overwritten by the caller, default options after explicit ones; Fourier family: every on-grid cos/sin '
                 'harmonic and pair combination strictly below both Nyquist frequencies%s; non-trivial = non-constant record whose step '
-                'actually changes' % (list(m['lens']), list(NEAR_EPS), list(m['near_dts']), list(m['side_lens']),
+                'actually changes.  Long family: n in %s x (dt, target) in %s x even in {T,F}: the smooth record through the three '
+                'entry points, on-grid harmonics k in {0, 1, 3, kmax//3, kmax-1, kmax} (kmax = largest harmonic strictly below both '
+                'Nyquist frequencies; cos and sin) and their weighted sum through the Fourier entry point'
+                % (list(m['lens']), list(NEAR_EPS), list(m['near_dts']), list(m['side_lens']),
                                       list(m['word_lens']), list(VALUE_SCALES),
                                       '' if m['pair_cap'] is None else
                                       ' (pairs among the %d lowest and %d highest harmonics for n > 12)'
-                                      % (m['pair_cap'], m['pair_cap'])),
+                                      % (m['pair_cap'], m['pair_cap']), long_lens(tier), list(LONG_STEPS)),
         'bounds': {'alphabet': SIG, 'dt': m['dts'], 'target_dt': m['targets'], 'lengths': m['lens'],
                    'word_lengths': m['word_lens'], 'even': [True, False], 'near_ratios': NEAR_RATIOS, 'near_eps': NEAR_EPS,
                    'near_dt': m['near_dts'], 'near_and_time_scale_lengths': m['side_lens'],
                    'time_scaled_menus': [TS_SMALL, TS_LARGE], 'integer_typed_steps': INT_STEPS, 'value_scales': VALUE_SCALES,
                    'object_classes_in_sequences': OBJ_CLASSES,
                    'containers': ['float64', 'int64', 'int16 x15000', 'uint8 x125', 'float32', 'list', 'tuple'],
-                   'previous_record_lengths': ['n+3', 'max(2,n-2)']},
+                   'previous_record_lengths': ['n+3', 'max(2,n-2)'],
+                   'long_lengths': long_lens(tier), 'long_steps': LONG_STEPS,
+                   'long_harmonics': '0, 1, 3, kmax//3, kmax-1, kmax (cos, sin) + weighted sum'},
         'required_classes': ['refinement', 'decimation', 'same-step', 'unchanged-step-below-2x', 'non-commensurate',
                              'rounding-adjacent-quotient', 'even-trimmed', 'even-natural', 'odd-length-output',
                              'array-entry', 'object-entry', 'fourier-entry', 'fourier-refine-exact',
@@ -138,13 +188,19 @@ def build(tier, seed):
                              'time-scale-small', 'time-scale-large', 'integer-typed-steps', 'value-scale-1e-09', 'value-scale-1e+06',
                              'container-i64', 'container-i16', 'container-u8', 'container-f32', 'container-list',
                              'container-tuple', 'object-history-longer-before', 'object-history-shorter-before', 'a-b-a',
-                             'returned-array-overwritten', 'default-after-explicit'],
+                             'returned-array-overwritten', 'default-after-explicit',
+                             'long-record', 'long-pow2', 'long-pow2-minus-1', 'long-pow2-plus-1', 'long-pow10',
+                             'long-above-2**15-5-smooth', 'long-above-2**15-not-5-smooth', 'long-above-2**16',
+                             'fourier-long-refine-exact', 'fourier-long-decimate-exact', 'fourier-long-same-exact'],
         'assumptions': ['duration of a record = npts*dt, both in the domain condition and in the duration claim; the domain '
                         'condition is evaluated exactly with dt, target read as the decimal numbers written (20 samples at 0.01 s '
                         'and target 0.1 s: duration exactly two target steps, inside the domain)',
                         'values outside {-1,0,2} only through the smooth records (x 1, 1e-9, 1e+6), the container records and the '
                         'harmonic family',
                         'dt, target only on the menus',
+                        'records longer than the length menu only through the long family (lengths next to powers of two / ten up '
+                        'to 2**%d + 4, smooth record + harmonic menu, fresh float64 objects, no containers / call sequences)'
+                        % LONG_TOP[tier],
                         'float32 records only for the two interpolation entry points (np.interp works in double precision; the '
                         'Fourier path returns single precision for them on the unchanged tree)',
                         'Fourier exactness is asserted only where npts*dt/new_dt is an integer of the requested parity '
@@ -327,6 +383,53 @@ def harmonic_family(n, nn, cap):
         la, xa, ya = pool[a]
         lb, xb, yb = pool[b]
         fam.append(([2] + la + [-1] + lb, 2 * xa - xb, 2 * ya - yb))
+    return fam
+
+
+def expect_close_long(r, claim, sub, got, want, rtol, scale, what=''):
+    """Res.expect_close for long series: same verdict, but a mismatch is reported with its worst sample (index, value,
+    expected value) instead of the whole series."""
+    r.n_cmp += 1
+    ok, err, why = close(got, want, rtol=rtol, scale=scale)
+    if ok:
+        return True
+    g, w = to_array(got), to_array(want)
+    obs, exp = None, None
+    if g is not None and w is not None and g.shape == w.shape and g.size:
+        with np.errstate(all='ignore'):
+            d = np.abs(g - w)
+            d = np.where(np.isfinite(d), d, np.inf)
+        i = int(np.argmax(d))
+        obs = {'worst_sample': i, 'of': int(g.size), 'value': float(g[i])}
+        exp = {'value': float(w[i])}
+    elif g is not None:
+        obs = {'shape': list(g.shape)}
+        exp = {'shape': list(w.shape)} if w is not None else None
+    else:
+        obs = type(got).__name__
+    return r.fail(claim, sub, (what + ': ' if what else '') + why, err=err, observed=obs, expected=exp)
+
+
+def harmonic_menu(n, nn):
+    """Long records: [(label, input samples, expected output samples)] for a MENU of on-grid harmonics strictly below both
+    Nyquist frequencies (lowest, a middle one, the two highest; cos and sin) and the weighted sum of all of them."""
+    kmax = (min(n, nn) - 1) // 2
+    ji = np.arange(n)
+    jo = np.arange(nn)
+    fam = []
+    for k in sorted(set(k for k in (0, 1, 3, kmax // 3, kmax - 1, kmax) if 0 <= k <= kmax)):
+        pi_ = 2 * math.pi * ((ji * k) % n) / n
+        po = 2 * math.pi * ((jo * k) % nn) / nn
+        fam.append((['cos', k], np.cos(pi_), np.cos(po)))
+        if k:
+            fam.append((['sin', k], np.sin(pi_), np.sin(po)))
+    xin = np.zeros(n)
+    yout = np.zeros(nn)
+    for i, (lab, xa, ya) in enumerate(fam):
+        c = (-1) ** i / (1.0 + i)
+        xin += c * xa
+        yout += c * ya
+    fam.append((['weighted-sum-of-menu'], xin, yout))
     return fam
 
 
@@ -611,18 +714,34 @@ def run_case(case):
         r.cls('minimum-duration-plus-one-sample')
     if n == 2:
         r.cls('two-sample-record')
-    if n in m['word_lens']:
+    long_ = fam == 'long'
+    if long_:
+        r.cls('long-record')
+        for p in range(6, 40):
+            if n in (2 ** p - 1, 2 ** p, 2 ** p + 1):
+                r.cls(('long-pow2-minus-1', 'long-pow2', 'long-pow2-plus-1')[n - 2 ** p + 1])
+        if n in (10 ** 3, 10 ** 4, 10 ** 5):
+            r.cls('long-pow10')
+        if n > 2 ** 15:
+            r.cls('long-above-2**15-5-smooth' if is_5_smooth(n) else 'long-above-2**15-not-5-smooth')
+        if n > 2 ** 16:
+            r.cls('long-above-2**16')
+    if long_:
+        records = [('smooth', smooth(n))]
+    elif n in m['word_lens']:
         records = [(list(w), list(w)) for w in itertools.product(SIG, repeat=n)]
         records.append(('smooth', smooth(n)))
     else:
         records = [('smooth', smooth(n))]
-    for sc in VALUE_SCALES:
-        records.append(('smooth*%.0e' % sc, [sc * v for v in smooth(n)]))
+    if not long_:
+        for sc in VALUE_SCALES:
+            records.append(('smooth*%.0e' % sc, [sc * v for v in smooth(n)]))
     for even in (True, False):
         fam_done = False
         base0 = {'dt': dt, 'target': tg, 'n': n, 'even': even}
-        run_containers(r, base0, dt, tg, n, even)
-        run_sequences(r, base0, dt, tg, n, even, smooth(n))
+        if not long_:
+            run_containers(r, base0, dt, tg, n, even)
+            run_sequences(r, base0, dt, tg, n, even, smooth(n))
         for label, rec in records:
             x = np.array(rec, dtype=float)
             nonconst = len(set(rec)) > 1
@@ -675,7 +794,7 @@ def run_case(case):
                 nn = tile_points(n, fmode, even) if fmode is not None else None
                 if fmode is not None and nn is None:
                     r.cls('fourier-nontile')
-                if nn is not None and out is not None:
+                if nn is not None and out is not None and not long_:
                     coef = dft_coeffs(rec)
                     scale = max(abs(v) for v in rec) or 1.0
                     kmax = (min(n, nn) - 1) // 2
@@ -706,7 +825,7 @@ def run_case(case):
             nn = tile_points(n, probe_mode, even)
             if nn is None:
                 continue
-            for lab, xin, yout in harmonic_family(n, nn, m['pair_cap']):
+            for lab, xin, yout in (harmonic_menu(n, nn) if long_ else harmonic_family(n, nn, m['pair_cap'])):
                 sub = {'dt': dt, 'target': tg, 'n': n, 'even': even, 'entry': 'resample', 'sig': lab}
                 r.states += 1
                 res = resample_call(r, sub, xin, dt, tg, even)
@@ -720,11 +839,15 @@ def run_case(case):
                            'record of the same grid point' % (hm, probe_mode))
                     continue
                 r.transitions += 1
-                r.cls('fourier-refine-exact' if hm[0] == 'refine' and hm[1] > 1 else
-                      'fourier-decimate-exact' if hm[1] > 1 else 'fourier-same-exact')
+                r.cls(('fourier-long-' if long_ else 'fourier-') +
+                      ('refine-exact' if hm[0] == 'refine' and hm[1] > 1 else
+                       'decimate-exact' if hm[1] > 1 else 'same-exact'))
                 want = yout[np.arange(len(out)) % nn]       # s is periodic
-                r.expect_close('fourier.band-limited-exact', sub, out, want, rtol=1e-9, scale=3.0,
-                               what='on-grid harmonic below the new Nyquist frequency; output vs s(j*new_dt)')
+                what = 'on-grid harmonic below the new Nyquist frequency; output vs s(j*new_dt)'
+                if long_:
+                    expect_close_long(r, 'fourier.band-limited-exact', sub, out, want, rtol=1e-9, scale=3.0, what=what)
+                else:
+                    r.expect_close('fourier.band-limited-exact', sub, out, want, rtol=1e-9, scale=3.0, what=what)
     return r
 
 
@@ -735,7 +858,10 @@ def snippet(case, v):
             "rec = sub.get('rec')\n"
             "x = np.array(rec if isinstance(rec, list) else [3*math.cos(1.3*j) - 1 + 0.1*j for j in range(n)], float)\n"
             "if isinstance(rec, str) and '*' in rec: x = x * float(rec.split('*')[1])\n"
-            "# harmonic cases ('sig' in sub): x = cos/sin(2*pi*k*arange(n)/n) as labelled\n"
+            "# harmonic cases ('sig' in sub): x = cos/sin(2*pi*k*arange(n)/n) as labelled (pairs: 2*first - second; long records: "
+            "weighted sum of the menu)\n"
+            "sig = sub.get('sig')\n"
+            "if sig and len(sig) == 2: x = getattr(np, sig[0])(2 * np.pi * ((np.arange(n) * sig[1]) %% n) / n)\n"
             "# rec 'container:<type>': the mixed {-1,0,2} pattern (x15000 as int16, x125 as uint8) / the smooth record in that container\n"
             "print(ts.interp_array_to_approx_dt(x, dt, target_dt=target, even=even))\n"
             "a = ts.interp_to_approx_dt(eqsig.AccSignal(x, dt), target_dt=target, even=even); print(a.dt, a.values)\n"
